@@ -62,23 +62,31 @@ func lsClientID(tag string, n int) int32 {
 	return int32(1 + verifChoose(tag, n))
 }
 
-// an arbitrary type-correct state: symbolic queue members, message senders/types, lock flags; control points forked
-func (s *lsSys) arbitrary() *specState {
+// an arbitrary type-correct state, shaped for a step of process `who` at label `label`: everything that label reads
+// or writes is arbitrary (queue members, pending messages, lock flags), the rest is fixed
+func (s *lsSys) arbitrary(who int, label string) *specState {
 	n := s.n
 	st := newSpecState()
 	var pcs, nets, locks []tla.RecordField
-	// server
-	pcs = append(pcs, tla.RecordField{Key: tla.MakeNumber(0), Value: tla.MakeString(lsServerLabels[verifChoose("spc", 3)])})
-	var q []tla.Value
-	for i, ql := 0, verifChoose("qlen", n+1); i < ql; i++ {
-		q = append(q, tla.MakeNumber(lsClientID("q", n)))
+	spc := "serverReceive"
+	if who == 0 {
+		spc = label
 	}
+	pcs = append(pcs, tla.RecordField{Key: tla.MakeNumber(0), Value: tla.MakeString(spc)})
+	var q []tla.Value
 	msg := tla.Value{}
-	if verifChoose("hasmsg", 2) == 1 {
-		msg = lsMsg(lsClientID("msgfrom", n), int32(1+verifChoose("msgtype", 2)))
+	bag := specEmptyFunction()
+	if who == 0 {
+		for i, ql := 0, verifChoose("qlen", 3); i < ql; i++ {
+			q = append(q, tla.MakeNumber(lsClientID("q", n)))
+		}
+		if label == "serverRespond" || verifChoose("hasmsg", 2) == 1 {
+			t := verifNondetInt32("msgtype") // also values that are neither LockMsg nor UnlockMsg
+			verifAssume(t >= 0 && t <= 3)
+			msg = tla.MakeRecord([]tla.RecordField{{Key: tla.MakeString("from"), Value: tla.MakeNumber(lsClientID("msgfrom", n))}, {Key: tla.MakeString("type"), Value: tla.MakeNumber(t)}})
+		}
 	}
 	// server mailbox: up to two pending requests
-	bag := specEmptyFunction()
 	for i, k := 0, verifChoose("nreq", 3); i < k; i++ {
 		bag = bagAdd(bag, setToBag(tla.MakeSet(lsMsg(lsClientID("reqfrom", n), int32(1+verifChoose("reqtype", 2))))))
 	}
@@ -86,11 +94,21 @@ func (s *lsSys) arbitrary() *specState {
 	locks = append(locks, tla.RecordField{Key: tla.MakeNumber(0), Value: tla.ModuleFALSE})
 	for i := 1; i <= n; i++ {
 		id := tla.MakeNumber(int32(i))
-		pcs = append(pcs, tla.RecordField{Key: id, Value: tla.MakeString(lsClientLabels[verifChoose("cpc", 4)])})
+		cpc := "Done"
 		cb := specEmptyFunction()
-		for g, k := 0, verifChoose("ngrant", 2); g < k; g++ {
-			cb = bagAdd(cb, setToBag(tla.MakeSet(tla.MakeNumber(3))))
+		if who == i {
+			cpc = label
+			for g, k := 0, verifChoose("nmsg", 3); g < k; g++ {
+				m := verifNondetInt32("cmsg") // grants and (to exercise the assertion) other values
+				verifAssume(m >= 2 && m <= 3)
+				cb = bagAdd(cb, setToBag(tla.MakeSet(tla.MakeNumber(m))))
+			}
+		} else if who == 0 {
+			for g, k := 0, verifChoose("ngrant", 2); g < k; g++ {
+				cb = bagAdd(cb, setToBag(tla.MakeSet(tla.MakeNumber(3))))
+			}
 		}
+		pcs = append(pcs, tla.RecordField{Key: id, Value: tla.MakeString(cpc)})
 		nets = append(nets, tla.RecordField{Key: id, Value: cb})
 		locks = append(locks, tla.RecordField{Key: id, Value: tla.MakeBool(verifNondetBool("haslock"))})
 	}
@@ -131,8 +149,18 @@ func (s *lsSys) checkStep(p *specProc, pre *specState, both bool) []*specState {
 func HarnessLocksvc_StepRelation() {
 	n := 1 + verifChoose("clients", 2)
 	s := lsNew(n)
-	pre := s.arbitrary()
 	who := verifChoose("process", n+1)
+	label := ""
+	if who == 0 {
+		label = lsServerLabels[verifChoose("label", 3)]
+	} else {
+		label = lsClientLabels[verifChoose("label", 3)]
+	}
+	pre := s.arbitrary(who, label)
+	if label == "serverRespond" {
+		// Tail of an empty queue is an error on both sides; the spec never reaches it (C15's invariant)
+		verifAssume(!(pre.get("msg").ApplyFunction(tla.MakeNumber(0)).ApplyFunction(tla.MakeString("type")).AsNumber() == 2 && pre.get("q").ApplyFunction(tla.MakeNumber(0)).AsTuple().Len() == 0))
+	}
 	s.checkStep(s.procs()[who], pre, true)
 	verifReach("end")
 }
